@@ -337,6 +337,38 @@ class Interp:
             r = h(self, fn, owner, self_val, list(args), dict(kwargs))
             if r is not None:
                 return r
+        decs = getattr(fn, "decorator_list", None) or []
+        if decs and not getattr(self, "_raw_call", False) and not (env0 or {}).get("@undecorated"):
+            mod0 = owner.module if owner is not None else (env0 or {}).get("@module", defaults_mod)
+            for d in decs:
+                dn = unparse(d)
+                if dn.split(".")[-1] == "contextmanager" and not isinstance(d, ast.Call):
+                    # a generator-based context manager: nothing runs until the `with` (see with_stmt)
+                    genv = {"@owner": owner, "@fname": fn.name, "@module": mod0}
+                    ps_ = [x.arg for x in fn.args.args]
+                    vals_ = ([self_val] if self_val is not None else []) + list(args)
+                    for p_, v_ in zip(ps_, vals_):
+                        genv[p_] = v_
+                    genv.update(kwargs)
+                    return ("ctxgen", fn, genv, owner)
+            user = []
+            for d in decs:
+                if isinstance(d, ast.Name) and mod0 is not None:
+                    r_ = self.repo.resolve_name(mod0, d.id)
+                    if r_ and r_[0] == "func":
+                        user.append(r_)
+            if user:
+                # a decorator defined in this repository wraps the function: what is called is what it returns
+                inner = ("closure", fn, {"@module": mod0, "@owner": owner, "@undecorated": True}, owner, None)
+                self._raw_call = True
+                try:
+                    wrapped = inner
+                    for r_ in reversed(user):
+                        wrapped = self.call_function(r_[2], None, None, [wrapped], {}, depth=depth + 1, defaults_mod=r_[1])
+                finally:
+                    self._raw_call = False
+                if wrapped[0] == "closure" and wrapped[1] is not fn:
+                    return self.apply(wrapped, ([self_val] if self_val is not None else []) + list(args), kwargs, {"@module": mod0}, depth + 1, None)
         a = fn.args
         params = [x.arg for x in a.posonlyargs + a.args]
         env = dict(env0 or {})
@@ -475,11 +507,7 @@ class Interp:
         elif isinstance(s, ast.Try):
             self.try_stmt(s, env, depth)
         elif isinstance(s, ast.With):
-            for it in s.items:
-                v = self.expr(it.context_expr, env, depth)
-                if it.optional_vars is not None:
-                    self.assign(it.optional_vars, v, env, depth)
-            self.block(s.body, env, depth)
+            self.with_stmt(s, 0, env, depth)
         elif isinstance(s, (ast.FunctionDef, ast.AsyncFunctionDef)):
             env[s.name] = ("closure", s, env, env.get("@owner"), None)
         elif isinstance(s, ast.Assert):
@@ -531,6 +559,85 @@ class Interp:
             return
         else:
             self.notes.append("unhandled statement " + type(s).__name__)
+
+    def with_stmt(self, s, i, env, depth):
+        """`with a, b: body` - entering and leaving a context manager are effects (ENTER / EXIT with the manager value), the
+        exit also happens when the body raises / returns / breaks; a generator-based manager of this repository
+        (@contextmanager) is interpreted: the part before its `yield` on entry, the rest on exit - and on an exception
+        only what a try/finally (or matching except) around the yield makes run"""
+        if i >= len(s.items):
+            self.block(s.body, env, depth)
+            return
+        item = s.items[i]
+        v = self.expr(item.context_expr, env, depth)
+        if v[0] == "ctxgen":
+            self.ctxgen_with(v, s, i, item, env, depth)
+            return
+        bound = v
+        if v[0] == "obj" and v[1].cls is not None:
+            k, m = self.repo.find_method(v[1].cls, "__enter__")
+            if m is not None:
+                bound = self.call_function(m, k, v, [], {}, depth=depth + 1)
+        self.emit("ENTER", v)
+        if item.optional_vars is not None:
+            self.assign(item.optional_vars, bound, env, depth)
+        try:
+            self.with_stmt(s, i + 1, env, depth)
+        finally:
+            self.emit("EXIT", v)
+            if v[0] == "obj" and v[1].cls is not None:
+                k, m = self.repo.find_method(v[1].cls, "__exit__")
+                if m is not None:
+                    self.call_function(m, k, v, [C_NONE, C_NONE, C_NONE], {}, depth=depth + 1)
+
+    def ctxgen_with(self, v, s, i, item, env, depth):
+        fn, genv, owner = v[1], dict(v[2]), v[3]
+        body = [st for st in fn.body if not (isinstance(st, ast.Expr) and isinstance(st.value, ast.Constant))]
+
+        def is_yield(st):
+            return isinstance(st, ast.Expr) and isinstance(st.value, ast.Yield) or (isinstance(st, ast.Assign) and isinstance(st.value, ast.Yield))
+        # form A: pre...; yield; post...        form B: pre...; try: pre2...; yield; post2... [except...] finally: fin
+        idx = next((j for j, st in enumerate(body) if is_yield(st)), None)
+        tryidx = next((j for j, st in enumerate(body) if isinstance(st, ast.Try) and any(is_yield(x) for x in st.body)), None)
+        if idx is None and tryidx is None:
+            self.notes.append("context manager %s: yield not at the top level of the body or of a try" % fn.name)
+            self.with_stmt(s, i + 1, env, depth)
+            return
+        if idx is not None:
+            pre, ynode, post, trynode = body[:idx], body[idx], body[idx + 1:], None
+        else:
+            trynode = body[tryidx]
+            yidx = next(j for j, st in enumerate(trynode.body) if is_yield(st))
+            pre, ynode, post = body[:tryidx] + trynode.body[:yidx], trynode.body[yidx], trynode.body[yidx + 1:]
+        self.block(pre, genv, depth + 1)
+        yv = ynode.value.value
+        bound = self.expr(yv, genv, depth + 1) if yv is not None else C_NONE
+        if item.optional_vars is not None:
+            self.assign(item.optional_vars, bound, env, depth)
+        try:
+            self.with_stmt(s, i + 1, env, depth)
+        except (_Raise, _Return, _Break, _Continue) as x:
+            # thrown into the generator at the yield: only a try around the yield reacts
+            if trynode is not None:
+                handled = False
+                if isinstance(x, _Raise):
+                    for h in trynode.handlers:
+                        hn = [unparse(t).split(".")[-1] for t in (h.type.elts if isinstance(h.type, ast.Tuple) else [h.type])] if h.type is not None else []
+                        name = x.exc[1].split("(")[0].split(".")[-1] if x.exc[0] in ("ext", "fn") else (x.exc[1].cls.name if x.exc[0] == "obj" and x.exc[1].cls else None)
+                        if h.type is None or "Exception" in hn or "BaseException" in hn or name in hn:
+                            self.block(h.body, genv, depth + 1)
+                            handled = True
+                            break
+                self.block(trynode.finalbody, genv, depth + 1)
+                if handled:
+                    return
+            raise
+        else:
+            self.block(post, genv, depth + 1)
+            if trynode is not None:
+                self.block(trynode.orelse, genv, depth + 1)
+                self.block(trynode.finalbody, genv, depth + 1)
+                self.block(body[tryidx + 1:], genv, depth + 1)
 
     def try_stmt(self, s, env, depth):
         try:
@@ -1350,11 +1457,38 @@ class Interp:
             return ("bound", b, name)
         if k == "bufobj":
             return ("bound", b, name)
+        if k == "ext" and b[1].startswith("module "):
+            rv = self.repo_module_attr(b[1], name)
+            if rv is not None:
+                return rv
         if k in ("ext", "fn", "unk", "unset", "many", "other"):
             return ("fn", "." + name, [b])
         if k == "bound" or k == "closure":
             return ("fn", "." + name, [])
         return ("fn", "." + name, [b])
+
+    def repo_module_attr(self, label, name):
+        """value of `name` in a module of this repository referred to by the opaque label 'module <dotted>'; None if unknown"""
+        if not label.startswith("module "):
+            return None
+        mm = self.repo.modules.get(label[len("module "):])
+        if mm is None:
+            return None
+        r = self.repo.resolve_name(mm, name)
+        if not r:
+            return None
+        if r[0] == "class":
+            return ("cls", r[1])
+        if r[0] == "func":
+            return ("closure", r[2], {"@module": r[1], "@owner": None}, None, None)
+        if r[0] == "assign":
+            a = const_alts(Evaluator(self.repo, r[1], None).ev(r[2]))
+            if a is not None and len(a) == 1:
+                return ("c", a[0])
+            return None
+        if r[0] == "module":
+            return ("ext", "module " + (r[1].name if r[1] else name), [])
+        return None
 
     def class_const_value(self, kc, c, ce):
         a = const_alts(Evaluator(self.repo, kc.module, c, class_scope=kc).ev(ce))
@@ -1849,17 +1983,35 @@ class Interp:
                 items = self.iterate(args[0])
                 return ("fn", "join", [recv] + (items if items is not None else [args[0]]))
             return ("fn", name, [recv] + list(args))
+        if k == "ext" and recv[1].startswith("module "):
+            rv = self.repo_module_attr(recv[1], name)
+            if rv is not None:
+                return self.apply(rv, args, kwargs, env, depth, e)
         if k == "ext":
             # an unknown method called on an opaque external object: the object now carries what was put into it,
             # and the call is recorded (dispatcher / protocol / manager calls are effects some rules look at)
             recv[2].extend(list(args) + list(kwargs.values()))
-            self.emit("CALL", recv[1] + "." + name, list(args))
+            self.emit("CALL", recv[1] + "." + name, list(args), recv)
             h = self.hooks.get("ext:" + recv[1] + "." + name) or self.hooks.get("ext:*." + name)
             if h is not None:
                 # the environment's reaction to this call (e.g. a dispatcher calling back synchronously)
                 r = h(self, recv, args, kwargs, env, depth, e)
                 if r is not None:
                     return r
+            if name == "acquire" and recv[1].split(".")[-1] in ("Lock()", "RLock()", "Semaphore()", "BoundedSemaphore()", "Condition()"):
+                nonblocking = (args and args[0] == ("c", False)) or kwargs.get("blocking") == ("c", False) or len(args) > 1 or "timeout" in kwargs
+                if not nonblocking:
+                    return C_TRUE
+                # a try-lock may fail: both outcomes are path classes
+                ok_ = self.free("trylock(%s)" % (unparse(e) if e is not None else recv[1]))
+                if not ok_:
+                    # the failed attempt did not take the lock: undo the CALL record's effect on the balance
+                    self.emit("CALL", recv[1] + ".release", [], recv)
+                return ("c", bool(ok_))
+            if not recv[1].endswith(")") and not recv[2] and name[:1].isupper() and not name.isupper() and name not in ("Empty", "Full"):
+                # a class of a library module is instantiated (threading.Lock(), Queue.Queue()): a fresh opaque object
+                # whose method calls are recorded
+                return ("ext", name + "()", list(args) + list(kwargs.values()))
         h = self.hooks.get("anymethod:" + name)
         if h is not None:
             # a method of a value the interpreter knows nothing about (the result of a library call): rules may observe it
